@@ -7,24 +7,49 @@ CONFIG = dict(
     namespaces=["MahfModel.Props.C04"],
     shrink_lists=["ops"],
     level="proof",
-    rule=("histories of Populations operations: (1) exhaustive — a prefix building height 0..3 followed by every "
-          "sequence of L ops (L=2 quick, 3 thorough) over a 28-op alphabet; (2) for every height h<=6 and every "
-          "n<=h+1, n successive rotate(n) / RotatePopulations(n); (3) seeded random histories of length 10..60 "
-          "(quick) / 10..200 (thorough). A history is non-trivial if it has at least 3 operations and contains a "
-          "rotation, peek or interleave; distinct = distinct canonical op list."),
-    nontrivial=lambda inp: inp.count("(") >= 4 and re.search(r"rot|peek|ileave", inp) is not None,
+    rule=("histories of Populations operations on a real State. Individuals carry a unique tag and an optional objective value "
+          "(evaluated with objective = tag / evaluated with a small objective shared by several individuals / not evaluated); "
+          "tag and objective are printed on every read. Sites: (exh) a prefix building height 0..3 followed by every sequence of "
+          "L ops (L=2 quick, 3 thorough) over a 40-op alphabet incl. arguments 2^64-1, tied and unevaluated individuals, in-place "
+          "edits, reset; (rotn, c-rotn) for every height h<=6 and every n<=h+1, n successive rotate(n) / RotatePopulations(n); "
+          "(bound) every depth-taking operation with arguments h-1, h, h+1, 2^32, 2^63, 2^64-2, 2^64-1 at heights 0..4; "
+          "(edit) every in-place edit (assign, push, extend, truncate, swap_remove, remove, insert, swap, reverse, clear, retain) with "
+          "every index 0..len+1 and 2^64-1 through current_mut and get_current_mut at heights 0..2; (rand) seeded random histories of "
+          "length 10..60 (quick) / 10..200 (thorough) in three flavours of individuals; (scoped) random histories with every "
+          "operation executed inside 0..4 nested with_inner_state scopes; (split) populations of 0..9 or 21..48 individuals with few "
+          "distinct objective values, split / interleave / split again; (deep) 15..40 populations of up to 12 individuals, rotations "
+          "and peeks around the height. A history is non-trivial if it has at least 3 operations and contains a rotation, peek, "
+          "interleave, split or in-place edit; distinct = distinct canonical op list."),
+    nontrivial=lambda inp: inp.count("(") >= 4 and re.search(r"rot|peek|ileave|split|edit", inp) is not None,
     trusted_base=[
-        "Vec/slice primitives (push, pop, last, get, rotate_right) are represented by their list semantics",
-        "individuals are opaque tags; RefCell borrow of Populations inside State not modelled here (C02)"],
-    assumptions=["SplitMix64-seeded generator; itertools::interleave modelled as alternate-until-both-exhausted"],
+        "Vec/slice primitives (push, pop, last, get, rotate_right, truncate, swap_remove, remove, insert, swap, reverse, clear, "
+        "retain, extend) are represented by their list semantics; usize arguments by naturals (the generator goes up to 2^64-1)",
+        "individuals are a tag plus an optional natural objective value; RefCell borrow of Populations inside State and the "
+        "parent-chain lookup from child scopes are not modelled here (C02/C03): `(in k op)` is modelled as `op`",
+        "witnesses read off the real run: the two halves produced by SplitPopulationByObjectiveValue (accepted iff a sorted "
+        "permutation with the prescribed sizes, otherwise the model answers with the stable sort) and the stack height after a "
+        "panic inside a component (accepted iff untouched or code-shaped partial state)"],
+    assumptions=["SplitMix64-seeded generator; itertools::interleave modelled as alternate-until-both-exhausted; "
+                 "sort_unstable_by_key modelled as 'any ascending order' (legal-witness nondeterminism)"],
 )
 CONFIG.update(
     level_text=("Lean 4 theorems: the Vec-with-index-arithmetic model of Populations refines a plain stack for every finite "
-                "history (history_refines), try_peek = spec[d]?, non-panicking accessors answer None exactly when too shallow, "
-                "rotate(n) shifts exactly the top n and n rotations are the identity for every n <= height, stack ops permute "
-                "populations only, RotatePopulations errs (never panics) on insufficient height. The model is tied to /repo by "
-                "running the real Populations/State/components on exhaustive short and seeded long histories and diffing against "
-                "the compiled model (K) and the abstract stack (O)."),
+                "history and every witness (history_refines), try_peek = spec[d]?, the non-panicking accessors (try_peek, try_pop, "
+                "get_current, get_current_mut) answer None exactly when the stack is empty / too shallow and never panic, the panicking "
+                "ones panic exactly then (panics_iff), and a None or panic leaves the stack as it was (failed_access_leaves_stack); "
+                "rotate(n) shifts exactly the top n, and n rotations — through the API or through RotatePopulations — are the identity "
+                "for every n <= height with no panic / Err on the way; over every history of pushes, pops, reads and rotations the "
+                "populations on the stack plus those handed out are exactly those initially there plus those pushed "
+                "(stack_conservation); any in-place edit, also a panicking one, changes nothing below the top "
+                "(edit_touches_top_only); RotatePopulations errs (never panics) on insufficient height; "
+                "SplitPopulationByObjectiveValue, whatever order the unstable sort leaves ties in, keeps the individuals, cuts "
+                "ceil(n/2)/floor(n/2), orders the halves by objective (split_spec), panics exactly on < 2 individuals or an "
+                "unevaluated one (split_panics_iff). The model is tied to /repo by running the real Populations/State/components on "
+                "exhaustive short and seeded long histories and diffing against the compiled model (K) and the abstract stack (O)."),
     level_note=("Trusted: Lean kernel; Vec/slice primitives represented by list semantics; harness + driver printing. "
-                "Individuals are opaque tags. The theorem is about the model; agreement with the code is checked on the generated histories only."),
+                "Individuals are tag + optional objective. Nondeterminism over legal witnesses: order of equal objective values in a "
+                "split; stack state after a panic inside InterleavePopulations/SplitPopulationByObjectiveValue (untouched or already "
+                "popped — neither property nor docs promise either). partial: scope lookup (parent chain) and RefCell borrows are "
+                "outside this model; the scoped site only checks that the stack behaves the same from inside child scopes. "
+                "The theorems are about the model; agreement with the code is checked on the generated histories only."),
 )
